@@ -27,13 +27,30 @@ type Params struct {
 	// so the next Put collects the whole buffer (the ring shrinks) while the client is connected.
 	Expiry bool
 	// Big: the second event carries ~6 KB of data (the client's scanner has to grow and compact its buffer).
-	Big     bool
-	Preempt int
+	Big bool
+	// Ring > 0: capacity of the FiniteReplayer (default 8). ValidManual: the ValidReplayer with publisher-set IDs.
+	// With NMsg == Ring (or 4 events in the ValidReplayer's initial ring) the newest event sits in the last slot.
+	Ring        int
+	ValidManual bool
+	// MaxRetries > 0: the client's Backoff.MaxRetries (a budget per streak of failed attempts: every cut here
+	// follows a successful connection, so any number of cuts must be survived with MaxRetries 1).
+	MaxRetries int
+	Preempt    int
 	Faults  int
 }
 
 func (p Params) Name() string {
-	return fmt.Sprintf("valid%v-cuts%s-killer%v-msgs%d-pb%d-fb%d-force%d.%d-expiry%v-big%v", p.Valid, p.Cuts, p.Killer, p.NMsg, p.Preempt, p.Faults, p.ForceAt, p.ForceVar, p.Expiry, p.Big)
+	extra := ""
+	if p.Ring > 0 {
+		extra += fmt.Sprintf("-ring%d", p.Ring)
+	}
+	if p.ValidManual {
+		extra += "-manualids"
+	}
+	if p.MaxRetries > 0 {
+		extra += fmt.Sprintf("-maxretries%d", p.MaxRetries)
+	}
+	return fmt.Sprintf("valid%v-cuts%s-killer%v-msgs%d-pb%d-fb%d-force%d.%d-expiry%v-big%v%s", p.Valid, p.Cuts, p.Killer, p.NMsg, p.Preempt, p.Faults, p.ForceAt, p.ForceVar, p.Expiry, p.Big, extra)
 }
 
 type published struct {
@@ -92,12 +109,16 @@ func body(p Params) func() {
 			if p.Expiry {
 				ttl = 2 * time.Second
 			}
-			v, _ := sse.NewValidReplayer(ttl, true)
+			v, _ := sse.NewValidReplayer(ttl, !p.ValidManual)
 			base := time.Date(2030, 1, 1, 0, 0, 0, 0, time.UTC)
 			v.Now = func() time.Time { return base.Add(time.Duration(vrt.Now())) }
 			inner = v
 		} else {
-			f, _ := sse.NewFiniteReplayer(8, false)
+			ring := 8
+			if p.Ring > 0 {
+				ring = p.Ring
+			}
+			f, _ := sse.NewFiniteReplayer(ring, false)
 			inner = f
 		}
 		rep := &jh.Replayer{Inner: inner, Reg: vrt.MakeChan[string](64)}
@@ -107,10 +128,11 @@ func body(p Params) func() {
 		w.T = &transport{env: w.Env, srv: srv}
 		cctx := vrt.NewCtx("client")
 		caughtUp := vrt.MakeChan[struct{}](8)
-		cl := sse.Client{HTTPClient: &http.Client{Transport: w.T}, Backoff: sse.Backoff{Jitter: -1, InitialInterval: time.Millisecond}}
+		cl := sse.Client{HTTPClient: &http.Client{Transport: w.T}, Backoff: sse.Backoff{Jitter: -1, InitialInterval: time.Millisecond, MaxRetries: p.MaxRetries}}
 		conn := cl.NewConnection(ch.NewRequest(cctx, http.NoBody))
 		lastID := fmt.Sprint(p.NMsg)
-		if p.Valid {
+		auto := p.Valid && !p.ValidManual
+		if auto {
 			lastID = fmt.Sprint(p.NMsg - 1)
 		}
 		gotFifth := vrt.MakeChan[struct{}](8)
@@ -132,7 +154,7 @@ func body(p Params) func() {
 		vrt.Recv(rep.Reg)
 		pub := vrt.GoNamed("publisher", func() {
 			for k := 0; k < p.NMsg; k++ {
-				m, rec := payload(k, p.Valid)
+				m, rec := payload(k, auto)
 				if p.Big && k == 1 {
 					m = &sse.Message{ID: m.ID}
 					m.AppendData(bigData)
@@ -290,6 +312,27 @@ func Scenarios(tier string) []run.Scenario {
 			add(Params{Valid: valid, Killer: true, NMsg: 4, Preempt: 1, Faults: 0})
 		}
 	}
+	// a retry budget of one: every cut follows a successful connection, so two cuts must be survived
+	for _, valid := range []bool{false, true} {
+		for at := 1; at <= 26; at++ {
+			add(Params{Valid: valid, Cuts: "coarse", NMsg: 2, Preempt: 0, Faults: 1, ForceAt: at, MaxRetries: 1})
+		}
+		add(Params{Valid: valid, Killer: true, NMsg: 3, Preempt: 0, Faults: 0, MaxRetries: 1})
+	}
+	// the newest event in the last slot of a full ring when the caught-up client is cut off
+	add(Params{Cuts: "all", NMsg: 2, Ring: 2, Preempt: 0, Faults: 1})
+	add(Params{Cuts: "all", NMsg: 3, Ring: 3, Preempt: 0, Faults: 1})
+	for at := 1; at <= 40; at++ {
+		for v := 0; v <= 1; v++ {
+			add(Params{Valid: true, ValidManual: true, Cuts: "coarse", NMsg: 4, Preempt: 0, Faults: 0, ForceAt: at, ForceVar: v})
+		}
+	}
+	if tier == "thorough" {
+		add(Params{Valid: true, ValidManual: true, Cuts: "all", NMsg: 4, Preempt: 0, Faults: 1})
+		add(Params{Valid: true, ValidManual: true, Cuts: "coarse", NMsg: 3, Preempt: 0, Faults: 2})
+		add(Params{Cuts: "coarse", NMsg: 4, Ring: 4, Preempt: 0, Faults: 2})
+		add(Params{Cuts: "coarse", NMsg: 2, Ring: 2, Preempt: 1, Faults: 1})
+	}
 	// the ValidReplayer on a moving clock: its buffer grows to 8, everything expires, the next Put collects
 	// (one scenario per cut position, the explorer only interleaves)
 	add(Params{Valid: true, NMsg: 7, Preempt: 0, Faults: 0, Expiry: true})
@@ -306,7 +349,7 @@ func Scenarios(tier string) []run.Scenario {
 
 var Check = &run.Check{
 	ID: "C05", Level: "model_checking",
-	Rule: "Scenarios: the real Server + Joe + FiniteReplayer(8, manual IDs) / ValidReplayer(automatic IDs) and the real Client/Connection in one process under the controlled scheduler; the client's transport runs Server.ServeHTTP on a handler thread per attempt and pipes the ResponseWriter into the response body; a publisher thread publishes 3-4 events (types, multi-line data with 'id: x' look-alikes, comments) once the first subscription has reached Joe. Faults (only after the client's first event): the connection is severed after ANY byte of ANY write of the handler (cutsall, one cut per execution) or at every write boundary / in the middle of every write (cutscoarse, up to two cuts per execution), or a killer thread ends a handler whose stream has started (clean end of body). Interleavings: all thread switches at blocking points (pb0) or with one preemption (pb1), all select tie-breaks, state-key pruning. Oracle: from its first event on the client sees exactly the published sequence (order, once each, ID/type/data), no goroutine panics, everything terminates.",
+	Rule: "Scenarios: the real Server + Joe + FiniteReplayer(8, manual IDs; also rings of 2/3/4 that the history fills exactly) / ValidReplayer(automatic IDs; also manual IDs with a history that fills its initial ring of 4) and the real Client/Connection in one process under the controlled scheduler; the client's transport runs Server.ServeHTTP on a handler thread per attempt and pipes the ResponseWriter into the response body; a publisher thread publishes 3-4 events (types, multi-line data with 'id: x' look-alikes, comments) once the first subscription has reached Joe. Faults (only after the client's first event): the connection is severed after ANY byte of ANY write of the handler (cutsall, one cut per execution) or at every write boundary / in the middle of every write (cutscoarse, up to two cuts per execution), or a killer thread ends a handler whose stream has started (clean end of body). Interleavings: all thread switches at blocking points (pb0) or with one preemption (pb1), all select tie-breaks, state-key pruning. Also with Backoff.MaxRetries 1 (every cut follows a successful connection, so the budget must never run out). Oracle: from its first event on the client sees exactly the published sequence (order, once each, ID/type/data), no goroutine panics, everything terminates.",
 	Assumptions: []string{
 		"net/http is replaced by an in-process pipe that reproduces its documented reactions: a broken connection fails the client's body read, fails later server writes and cancels the server's request context; a returning handler ends the body cleanly; the client dropping the response cancels the server's request context",
 		"the whole-stack scenario is explored at preemption bound 0-1 and at most 1-2 cuts per execution; the fine-grained interleavings of its parts are covered by C03/C04/C06/C10",
